@@ -15,6 +15,8 @@ LIMITS = {
     'INT_MIN': -2 ** 31, 'INT_MAX': 2 ** 31 - 1, 'UINT_MAX': 2 ** 32 - 1,
     'LONG_MIN': -2 ** 63, 'LONG_MAX': 2 ** 63 - 1, 'ULONG_MAX': 2 ** 64 - 1,
     'LLONG_MIN': -2 ** 63, 'LLONG_MAX': 2 ** 63 - 1, 'ULLONG_MAX': 2 ** 64 - 1,
+    # narrow types served by the stream fall-back parser (harness op 9 4 prints the real values)
+    'SCHAR_MIN': -2 ** 7, 'SCHAR_MAX': 2 ** 7 - 1, 'UCHAR_MAX': 2 ** 8 - 1, 'SHRT_MIN': -2 ** 15, 'SHRT_MAX': 2 ** 15 - 1, 'USHRT_MAX': 2 ** 16 - 1,
 }
 TYPES = [  # (C++ spelling, short name, signed?)
     ('int', 'int', True), ('unsigned', 'uint', False), ('long', 'long', True), ('unsigned long', 'ulong', False),
